@@ -267,7 +267,7 @@ def run_resalias(case, ctx, rng):
     """history across objects: a result (of any operator, of b[i], b[i:j], b[list], split, extension) is mutated in
     place; the operands, later reads of the same operands and sibling vectors must be unaffected"""
     from crysp.bits import Bits as B
-    from crysp.utils.operators import rol, ror
+    from crysp.utils.operators import rol, ror, concat as concat_
     n = case['n']
     a = (rng.getrandbits(n), n); b = (rng.getrandbits(n), n)
     A, Bv, Sib = B(*a), B(*b), B(*a)
@@ -277,6 +277,8 @@ def run_resalias(case, ctx, rng):
              ('a&b', lambda: A & Bv, m_bin('&', a, b)), ('a|b', lambda: A | Bv, m_bin('|', a, b)), ('a^b', lambda: A ^ Bv, m_bin('^', a, b)), ('a+b', lambda: A + Bv, m_bin('+', a, b)),
              ('a-b', lambda: A - Bv, m_bin('-', a, b)), ('~a', lambda: ~A, m_inv(a)), ('-a', lambda: -A, m_neg(a)), ('a<<1', lambda: A << 1, m_shl(a, 1)), ('a>>1', lambda: A >> 1, m_shr(a, 1)),
              ('a//b', lambda: A // Bv, m_cat(a, b)), ('rol(a,1)', lambda: rol(A, 1), m_rol(a, 1)), ('ror(a,0)', lambda: ror(A, 0), a), ('a.split(n)[0]', lambda: A.split(n)[0], a),
+             ('a//empty', lambda: A // B(0, 0), a), ('a//0', lambda: A // 0, a), ('empty//a', lambda: B(0, 0) // A, a), ('a^empty', lambda: A ^ B(0, 0), a), ('a|empty', lambda: A | B(0, 0), a),
+             ('a+empty', lambda: A + B(0, 0), a), ('a<<0', lambda: A << 0, a), ('a>>0', lambda: A >> 0, a), ('concat([a])', lambda: B(concat_([A])), a),
              ('Bits(a)', lambda: B(A), a), ('a&a', lambda: A & A, a), ('a|0', lambda: A | 0, a), ('a+0', lambda: A + 0, a)]
     muts = [lambda r: r.__setitem__(0, 1 - r.bit(0)), lambda r: setattr(r, 'size', r.size + 3), lambda r: r.zeroextend(r.size + 5),
             lambda r: r.signextend(r.size + 2), lambda r: r.__setitem__(slice(0, r.size), B(rng.getrandbits(r.size), r.size)), lambda r: setattr(r, 'ival', r.ival ^ 1)]
